@@ -10,7 +10,8 @@ from vlib.harness import Machine
 
 PROPERTY = "C03"
 RULE = (
-    "Stateful machine. State: a pool of well-formed trees (two generated tagged trees to start with; every well-formed "
+    "Stateful machine. State: a pool of well-formed trees (two generated tagged trees to start with, numbered parent-before-child or in any "
+    "order that keeps the root at 0; every well-formed "
     "result of at most 60 nodes joins the pool) and, for each, a deep model snapshot (bytes of every column, comments, "
     "source). Rules draw an operation and its arguments from the current pool: sort_tree, get_subtree(n), "
     "to_subtree(removals), cut_tree (enter / leave with a drawn decision mask / no callback), redirect_tree(n, sort on / "
@@ -38,7 +39,7 @@ FAMILY = {}
 
 def init_strategy(tier):
     mx = 12 if tier == "quick" else 30
-    t = gen_tree.tree_case(min_n=1, max_n=mx, regimes=["lattice", "coincident"], soma_root=None, permute=False, types_max=4)
+    t = gen_tree.tree_case(min_n=1, max_n=mx, regimes=["lattice", "coincident"], soma_root=None, permute=None, types_max=4)
     return st.tuples(t, t).map(list)
 
 
@@ -85,6 +86,8 @@ class _State:
 
 
 def start(init, ctx):
+    if any(any(p > i for i, p in enumerate(t["parents"])) for t in init):
+        ctx.cls("start:numbering-not-parent-before-child")
     return _State(init)
 
 
@@ -315,5 +318,6 @@ SUBCHECKS = [
     Machine("pipeline", init_strategy, {"op": OPARGS, "op2": OPARGS, "op3": OPARGS, "op4": OPARGS, "scribble": SCRIB}, start, apply, invariant, finish,
             quick=1600, thorough=10000, steps_quick=30, steps_thorough=60, shards_quick=8,
             required={"scribble-after-derived": 150, "family:structure": 200, "family:prune": 150, "family:geometry": 200,
-                      "family:shape": 100, "family:io": 60, "family:compose": 60, "steps>=3": 250}),
+                      "family:shape": 100, "family:io": 60, "family:compose": 60, "steps>=3": 250,
+                      "start:numbering-not-parent-before-child": 100}),
 ]
